@@ -88,15 +88,16 @@ package common
 //@      && forall(i, 0, len(s.SubScopes), forall(j, i, len(s.SubScopes), s.SubScopes[i].Loc.StartLine <= s.SubScopes[j].Loc.StartLine))
 
 //@ func isInLocation
-//@   props C05 C14
+//@   props C05 C14 C06 C11 C13
 //@   sweep C01
 //@   pure
 //@   requires loc != nil
 //@   ensures[is-containment] result <==> inLoc(loc.StartLine, loc.StartColumn, loc.EndLine, loc.EndColumn, line, column)
 //@ end
 
+// (find-references, rename and hover map the request position to its scope through the same function: C06, C11, C13)
 //@ func (*ScopeInfo).FindMinScope
-//@   props C05 C14
+//@   props C05 C14 C06 C11 C13
 //@   sweep C01
 //@   requires[scope-tree-shape] wfScope(scope)
 //@   ensures[nil-iff-outside] minScope == nil <==> !inLoc(scope.Loc.StartLine, scope.Loc.StartColumn, scope.Loc.EndLine, scope.Loc.EndColumn, line, column)
@@ -137,7 +138,7 @@ package common
 //@      && (selfFunc(v) || !(inInitFunc(v, sl, sc, el, ec) || inInitName(v, sl, sc, el, ec) || inInitCall(v, sl, sc, el, ec)))
 
 //@ func (*VarInfo).IsCorrectPosition
-//@   props C05
+//@   props C05 C06 C07 C11 C13
 //@   sweep C01
 //@   ensures[is-lua-visibility] result <==> visible(varInfo, loc.StartLine, loc.StartColumn, loc.EndLine, loc.EndColumn)
 //@   ensures[C05,not-visible-in-own-initialiser-of-any-kind] typeis(varInfo.ReferExp, "*ast.BinopExp")
@@ -148,7 +149,7 @@ package common
 
 // FindLocVar: the nearest enclosing scope that has a visible declaration of the name wins; inside it the LAST one (shadowing).
 //@ func (*ScopeInfo).FindLocVar
-//@   props C05
+//@   props C05 C06 C07 C11 C13
 //@   sweep C01
 //@   ensures[found-is-visible] result1 ==> result0 != nil && visible(result0, loc.StartLine, loc.StartColumn, loc.EndLine, loc.EndColumn)
 //@   ensures[last-visible-in-nearest-scope-wins] scope.LocVarMap[name] != nil ==>
@@ -285,6 +286,27 @@ package common
 //@   requires fileIndexInfo != nil
 //@   at call append#0 before assert[candidate-ends-at-a-directory-boundary]
 //@        (suffixFlag ==> hasSuffix(strFile, concat("/", referFile))) && (!suffixFlag ==> hasSuffix(pathToPreStr, concat("/", referFile)))
+//@ end
+
+// C09 (and C18): with several candidates the answer is the minimum of the total order proved for resultSorterMatch.Less,
+// which is independent of the map-iteration order the candidates were collected in ONLY IF every candidate takes part:
+// each candidate is scored and appended to the list that is sorted, none is filtered out beforehand.
+//@ func GetBestMatchReferFile
+//@   props C09 C18
+//@   loop range:candidateVec step [every-candidate-is-ranked] len(matchResults.results) == prev(len(matchResults.results)) + 1
+//@   loop range:candidateVec exits-early-only-if [every-candidate-is-ranked] false
+//@   at call sort.Sort#0 before assert[the-list-of-all-candidates-is-what-is-sorted] typeis(arg0, "*common.resultSorterMatch") && as(arg0, "*common.resultSorterMatch") == matchResults
+//@ end
+
+// ---- C15: a file's own type table keeps EVERY declaration of a name ----
+// a class (or alias) may be declared several times in one file, its fields split over the blocks; each declaration is
+// appended to the list stored under the name (the map holds list VALUES, so the grown list has to be stored back)
+//@ func (*AnnotateFile).insertNewType
+//@   props C15
+//@   requires af.CreateTypeMap != nil && oneTypeInfo != nil
+//@   ensures[declaration-is-added-to-the-list-stored-under-its-name] has(af.CreateTypeMap, name)
+//@        && len(af.CreateTypeMap[name].List) == old(has(af.CreateTypeMap, name) ? len(af.CreateTypeMap[name].List) : 0) + 1
+//@        && af.CreateTypeMap[name].List[len(af.CreateTypeMap[name].List) - 1] == oneTypeInfo
 //@ end
 
 // ---- C08 / C18: the file-name index follows file creation and deletion ----
